@@ -4,11 +4,11 @@ import json, sys
 READY = True
 
 META = {
-    "technique": "Lean 4 proof (block-stack driver with LoadBlocks / parent switch / depth cursor refines the substitution spec for inheritance chains of any length; super/fall-through/discard/cycle/double-extends/missing/include/import laws) + differential correspondence of the model with the real engine on enumerated and sampled template environments",
+    "technique": "Lean 4 proof (block-stack driver with LoadBlocks / parent switch / depth cursor / BlockState::Replace / recursion-limit accounting refines a stack-free specification for every environment of the fragment and every fuel; termination, cycle, double-extends, missing-template, include and import theorems) + differential correspondence of the model with the real engine on enumerated and sampled template environments",
     "category": "proof",
-    "text": "Kernel-checked theorems about MJ/Model/Blocks.lean (transcription of LoadBlocks, the end-of-instructions parent switch, call_block, perform_super, perform_include, import/from-import codegen): for every chain of templates of any length whose nested blocks are well-founded, the stateful driver (per-name block stacks, depth cursor moved by super(), output discarded after extends) renders exactly the substitution spec (block -> most-derived body, super at level k -> level k+1, error if none); corollaries super_goes_one_up, untouched_falls_through, child_text_discarded; every extends cycle, second extends and missing template is an error for every fuel; include picks the first existing name, ignore-missing only ignores missing names; import exports exactly the top-level assignments. The model is tied to /repo by rendering every generated environment (all 1- and 2-template block assignments exhaustively, sampled chains of up to 4 templates with include/import placements at top level, in loops, macros and blocks, static/dynamic/conditional extends, inheritance and include cycles, double extends, missing templates) with the real engine in supervised child processes (hang / stack overflow = failure) and comparing output or error-kind chain with the Lean model; an independent substitution-style spec in Python is the oracle.",
+    "text": "Kernel-checked theorems about MJ/Model/Blocks.lean (transcription of LoadBlocks, the end-of-instructions parent switch, call_block incl. self.name() and required blocks, perform_super emitted and captured, perform_include, import/from-import codegen, loops, macro calls, variable frames, and the recursion limit = outer_stack_depth + frames with INCLUDE_/MACRO_RECURSION_COST regenerated from the sources): blocks_refine_spec — for every environment whose templates are built from text, variables, set, macros, block tags, self.name(), super() (both also captured into variables), required blocks, conditional extends (executed or not, anything before/behind it), include (names, lists, ignore missing; included templates being inheritance chains of their own), import/from-import, loops and macro calls, with well-founded block nesting, and for every fuel, the stateful driver returns exactly the output or error chain of the specification (no block stacks, no cursor, no capture stack, no loaded set); corollaries block_renders_most_derived, super_goes_one_up, untouched_falls_through, child_text_discarded; rendering_terminates (the recursion limit, not the model's fuel, bounds every nest), extends_terminates / cycle_is_detected_error, include_cycle_errors (include cycles end in BadInclude…InvalidOperation), double_extends_error, missing_is_error_not_truncation, include_first_existing, import_exports_toplevel, import_of_extending_template. The model is tied to /repo by rendering every generated environment (all 1- and 2-template block assignments exhaustively, sampled chains of up to 4 templates with include/import/self-call snippets at top level, in loops, macros and blocks, static/dynamic/conditional extends, captured super, required blocks, inheritance and include cycles, double extends, missing templates) with the real engine in supervised child processes (hang / stack overflow = failure) and comparing output or the exact error-kind chain with the Lean model; the Lean specification itself is evaluated on every case inside the fragment, and an independent substitution-style spec in Python is the oracle.",
     "design_ref": "DESIGN.md §3 C06",
-    "level_note": "Trusted: Lean kernel; hand transcription of vm/mod.rs (LoadBlocks, end of instructions, call_block, perform_super, perform_include, ExportLocals), vm/state.rs (BlockStack, with_execution_state) and the Import/FromImport/Extends/Block code generation into MJ/Model/Blocks.lean, validated differentially (not proved) on ~1.6e4 (quick) / ~1.3e5 (thorough) environments; the pretty-printer from abstract templates to Jinja source in harness/src/bin/c06.rs. The refinement theorem covers the core fragment (text, blocks, super, extends); include/import/loops/macros/variables inside chains are covered by their own theorems and by the correspondence only. The engine's recursion limit is modelled as nesting fuel; where exactly the limit strikes in a cycle is not compared.",
+    "level_note": "Trusted: Lean kernel; hand transcription of vm/mod.rs (LoadBlocks, end of instructions, call_block, perform_super, perform_include, ExportLocals, macro calls), vm/state.rs (BlockStack, with_execution_state), vm/context.rs (depth accounting) and the Import/FromImport/Extends/Block code generation into MJ/Model/Blocks.lean, validated differentially (not proved) on ~1.6e4 (quick) / ~1.4e5 (thorough) environments; the pretty-printer from abstract templates to Jinja source in harness/src/bin/c06.rs. Outside the proven fragment (validated by the correspondence only): super() at the top level of an included template, block references from a block to a lower-numbered block or from inside a macro, extends inside loops/macros/blocks, macro closures over enclosing locals. The specification threads variable frames exactly like the engine (it abstracts from the block machinery, not from variable scoping).",
 }
 
 LIMIT = 60  # nesting bound of the Python spec (only cycles reach it)
@@ -404,10 +404,10 @@ def run(r):
               "cycles, include cycles, double extends and missing templates; a case is non-trivial when it executes an extends, "
               "include or import")
     r.assumptions = [
-        "the engine's recursion limit (500) and the model's nesting fuel (160) are both reached only by cyclic cases; where the limit strikes is not compared (error chains longer than 24 are compared on their first 12 kinds and the innermost kind)",
+        "the model's nesting fuel (4000) is never exhausted (rendering_terminates: (LIMIT-1)*(|env|+2)+|env|+1 would be needed only by adversarial nests; the generated cases stay far below)",
         "template/block/variable names are the harness' canonical t<i>/b<n>/v<n>; name syntax and path joining are not part of this property",
     ]
-    r.regen_tables()
+    r.regen_tables(["MAX_RECURSION_ENV", "INCLUDE_RECURSION_COST", "MACRO_RECURSION_COST"])
     r.lean_prove("MJ.Props.C06", "MJ/Audit/C06.lean", extra_targets=["drive_c06"])
     exe = r.cargo_build("c06")
     if exe is None:
@@ -441,7 +441,7 @@ def run(r):
             if lean_spec != "n/a":
                 # the case lies in the fragment of `blocks_refine_spec`: the Lean spec itself must
                 # agree with the engine and with the Python reading of the statement
-                r.hist["oracle"]["core-fragment (Lean spec evaluated)"] += 1
+                r.hist["oracle"]["inside proven fragment (Lean spec evaluated)"] += 1
                 if lean_spec != impl:
                     r.oracle_failure(case, f"Lean specRender gives {lean_spec[:300]} but the engine {impl[:300]}", "lean-spec:" + fam)
                 py = spec_result(parse_case(case)[1])
@@ -455,6 +455,8 @@ def run(r):
         if i % 1300 == 7:
             r.sample({"case": case[:400], "engine": impl[:300]})
     r.extra["cases"] = len(lines)
+    inside = r.hist["oracle"]["inside proven fragment (Lean spec evaluated)"]
+    r.extra["fraction_inside_proven_fragment"] = round(inside / max(1, len(lines)), 4)
 
 
 def replay(r, path):
